@@ -15,6 +15,8 @@ Case (JSON):
    "map":  null | {"steps":[S..],"sel":..,"drop":b,"bare":b,"pre":[value..],"post":[value..]}}
   S = {"k":"scale","x":i} | {"k":"proj","i":n} | {"k":"setkey","key":s,"v":P} | {"k":"dup"} | {"k":"dropodd"}
     | {"k":"failon","x":i} | {"k":"var","name":s,"proj":n|null,"type":s,"kw":{..}}
+    | {"k":"count","name":s}   lena.flow.Count(name) as a Run element (stateful; post-elements and MapBins sequences)
+    | {"k":"acc","kind":acc}   an accumulator (_Acc) as a Run element (stateful, filled when run() is called; MapBins only)
   P (a Python value) = int | str | {"t":[P..]} (tuple) | {"l":[P..]} (list) | {key:P} (dict; keys are never "t"/"l")
 
 The analysis `FillComputeSeq(*pre, acc, *post)` is built from the fixture elements below (`_CallStep`,
@@ -60,6 +62,8 @@ THEOREMS = [
     "Lena.C11.iterate_passes",
     "Lena.C11.iterate_passes_unselected",
     "Lena.C11.map_bins_shape",
+    "Lena.C11.map_bins_cells_independent",
+    "Lena.C11.map_bins_start_error",
     "Lena.C11.map_bins_count_le",
     "Lena.C11.map_bins_passes",
     "Lena.C11.new_valid",
@@ -99,8 +103,9 @@ RULE = ("quick and thorough: (E) exhaustive small scope - for 1-d edges [0,2], [
         "[[0,2],[0,2,4]] every flow of length <= 2 (thorough: <= 3 in 1-d) over all integer points from one below to one "
         "above the edges, with the accumulators `store` and `each`, followed by IterateBins; (S) seeded random cases: 1-, 2- "
         "and (rarely) 3-dimensional edges, flows of bare values and (data, context) pairs inside / on the border / outside, "
-        "argument variables Variable / typed Variable / Combine, analyses pre* acc post* over 7 accumulator kinds and 7 "
-        "element kinds (context-mutating, multiplying, dropping, raising), IterateBins and MapBins stages with selectors, "
+        "argument variables Variable / typed Variable / Combine, analyses pre* acc post* over 7 accumulator kinds and 9 "
+        "element kinds (context-mutating, multiplying, dropping, raising; stateful: lena.flow.Count and accumulators as Run "
+        "elements in post-sequences and MapBins sequences), IterateBins and MapBins stages with selectors, "
         "bare histograms and pass-through values; bad constructor arguments. Non-trivial: a histogram with >= 2 cells was "
         "yielded and >= 2 values fell inside the edges.")
 CASE_TIMEOUT = 10
@@ -222,6 +227,8 @@ def _step_strings(steps, acc):
             _strings(_py(s["v"]), acc)
         elif s["k"] == "var":
             _strings(_var_context(s), acc)
+        elif s["k"] == "count":
+            acc.add(s["name"])
 
 
 def _names(case):
@@ -338,6 +345,11 @@ class _MultiStep(object):
 def _make_step(s):
     if s["k"] == "var":
         return _make_variable(s)
+    if s["k"] == "count":
+        import lena.flow
+        return lena.flow.Count(s["name"])
+    if s["k"] == "acc":
+        return _Acc(s["kind"])
     if s["k"] in ("dup", "dropodd"):
         return _MultiStep(s)
     return _CallStep(s)
@@ -566,6 +578,8 @@ def _step_req(s, nm):
         return {"k": "setkey", "key": nm.index[s["key"]], "v": _slots(_py(s["v"]), nm)}
     if k == "var":
         return {"k": "var", "proj": s.get("proj"), "vc": _slots(_var_context(s), nm)}
+    if k == "count":
+        return {"k": "count", "key": nm.index[s["name"]]}
     return s
 
 
@@ -977,13 +991,22 @@ _SETKEYS = [
 ]
 
 
-def _gen_step(rng, int_data, wild=False):
+def _gen_step(rng, int_data, wild=False, where="pre"):
     kinds = ["setkey", "setkey", "var", "dup"]
     if int_data or wild:
         kinds += ["scale", "dropodd", "failon"]
     if not int_data or wild:
         kinds += ["proj"]
+    if where in ("post", "map"):
+        kinds += ["count", "count"]           # stateful elements (only modelled after the accumulator)
+    if where == "map":
+        kinds += ["acc", "acc", "acc", "acc"]
     k = rng.choice(kinds)
+    if k == "count":
+        return {"k": "count", "name": rng.choice(["n", "a"])}, int_data
+    if k == "acc":
+        kind = rng.choice(["sum", "sum", "store", "each", "sumcount", "count", "failempty", "sumfail"])
+        return {"k": "acc", "kind": kind}, (int_data if kind == "each" else kind != "store")
     if k == "scale":
         return {"k": "scale", "x": rng.choice([-1, 2, 3])}, int_data
     if k == "proj":
@@ -1001,10 +1024,10 @@ def _gen_step(rng, int_data, wild=False):
     return {"k": k}, int_data
 
 
-def _gen_steps(rng, n, int_data, wild):
+def _gen_steps(rng, n, int_data, wild, where="pre"):
     steps = []
     for _ in range(n):
-        s, int_data = _gen_step(rng, int_data, wild and rng.random() < 0.3)
+        s, int_data = _gen_step(rng, int_data, wild and rng.random() < 0.3, where)
         steps.append(s)
     return steps, int_data
 
@@ -1091,7 +1114,7 @@ def _gen_random(rng, big):
     acc = rng.choice(["sum", "sum", "store", "store", "store", "each", "each", "sumcount", "sumcount", "count",
                       "failempty", "sumfail"])
     res_int = acc in ("sum", "sumcount", "count", "failempty", "sumfail") or (acc == "each" and int_data)
-    post, res_int = _gen_steps(rng, rng.choice([0, 0, 1, 1, 2]), res_int, wild)
+    post, res_int = _gen_steps(rng, rng.choice([0, 0, 1, 1, 2]), res_int, wild, "post")
     case = {"edges": edges, "seq_ok": True, "argvar_ok": True, "bare_acc": rng.random() < 0.3, "argvar": argvar,
             "spec": {"pre": pre, "acc": acc, "post": post}, "flow": flow, "iter": None, "map": None}
     if rng.random() < 0.7:
@@ -1099,7 +1122,7 @@ def _gen_random(rng, big):
                         "pre": [_gen_plain(rng) for _ in range(rng.choice([0, 0, 1]))],
                         "post": [_gen_plain(rng) for _ in range(rng.choice([0, 0, 1]))]}
     if rng.random() < 0.7:
-        steps, _ = _gen_steps(rng, rng.choice([0, 1, 1, 2]), res_int, wild)
+        steps, _ = _gen_steps(rng, rng.choice([0, 1, 1, 2, 2]), res_int, wild, "map")
         case["map"] = {"steps": steps, "sel": rng.choice(["all"] * 8 + ["int", "none"]), "drop": rng.random() < 0.6,
                        "bare": rng.random() < 0.1,
                        "pre": [_gen_plain(rng) for _ in range(rng.choice([0, 0, 1]))],
@@ -1177,6 +1200,10 @@ def classify(case, res):
             labels.append("pre-mutates-context")
         if any("c" in v for v in case["flow"]):
             labels.append("flow-with-context")
+        if any(s["k"] in ("count", "acc") for s in case["spec"]["post"]):
+            labels.append("post-stateful")
+        if case.get("map") and any(s["k"] in ("count", "acc") for s in case["map"]["steps"]):
+            labels.append("map-stateful" + ("-multicell" if len(res["cells"]) >= 2 and res["compute"]["out"] else ""))
     return labels
 
 
